@@ -117,8 +117,16 @@ impl MarkdownEventsReader {
                     self.pop_inline();
                 }
                 FootnoteReference(_) => {}
-                SoftBreak => {}
-                HardBreak => {}
+                SoftBreak | HardBreak => {
+                    // a line break separates words, keep them apart
+                    if !self.metadata_block {
+                        self.push_inline(
+                            DocumentInline::Str(" ".to_string()),
+                            self.to_line_range(range),
+                        );
+                        self.pop_inline();
+                    }
+                }
                 Rule => {
                     self.push_block(DocumentBlock::HorizontalRule(HorizontalRule {
                         line_range: self.to_line_range(range),
